@@ -70,7 +70,9 @@ func fixBlock(from uintptr, block []byte, trampoline uintptr,
 			if l := copy(copyBlock, block); l != len(block) {
 				return nil, 0, errors.New("copy block array error")
 			}
-			fixedInsData := fixIns(ins, pos, copyBlock, blockSize, (uint64)(from), trampoline)
+			// 前面的指令被扩展(短跳转改为长跳转)之后, 当前指令在 trampoline 中的位置会后移
+			grown := uintptr(len(fixedBlock) - pos)
+			fixedInsData := fixIns(ins, pos, copyBlock, blockSize, (uint64)(from), trampoline+grown)
 			fixedBlock = append(fixedBlock, fixedInsData...)
 
 			logger.Debugf("[%d]>[%d] 0x%x:\t%s\t\t%s\t\t%s", ins.Len, len(fixedInsData),
